@@ -23,6 +23,12 @@ fn main() {
             i += 1;
         }
     }
+    if rest[0] == "--grind-edkeys" {
+        let recs = enrverif::sigshapes::grind_edkeys(3_000_000);
+        std::fs::write(&rest[1], serde_json::to_string_pretty(&recs).unwrap()).unwrap();
+        eprintln!("{} records", recs.len());
+        return;
+    }
     if rest[0] == "--grind-sigshapes" {
         let recs = enrverif::sigshapes::grind(3_000_000);
         std::fs::write(&rest[1], serde_json::to_string_pretty(&recs).unwrap()).unwrap();
